@@ -402,4 +402,16 @@ example :
   have : (if j = 0 then Worker.mk "rA" "i" .claimed false else ⟨if j = 0 then "rA" else "rB", "i", .idle, false⟩).phase = .inBody := hh.2.2
   split at this <;> simp at this
 
+/-- **Registration is no way round a claim**: registering an invocation the orchestrator already knows (a client re-sending
+    its batch) changes nothing at all - in particular not the status, the owner or the retry count of a held invocation.
+    (`_register_new_invocations`: "if they don't exist yet"; both backends since repair c3ec40c.) -/
+theorem reregistration_changes_nothing (o : Orch) (id : String) (inf : InvInfo) (rid : Option String) (now : Int)
+    (h : o.recs.has id = true) : o.registerInv id inf rid now = o ∧ o.register id rid now = o := by
+  simp [Orch.registerInv, Orch.register, h]
+
+/-- … and registration of an unknown id creates exactly a REGISTERED record owned by the registrant -/
+theorem registration_creates_registered (o : Orch) (id : String) (rid : Option String) (now : Int)
+    (h : o.recs.has id = false) : (o.register id rid now).get id = some { status := .registered, owner := rid, ts := now } := by
+  simp [Orch.register, Orch.get, h, AMap.get?_set_self]
+
 end Pynenc.C02
